@@ -9,6 +9,7 @@ RULE_C04 = 'C04 profile: affinity limits on random subsets of levels (server, ra
 
 def run(tier, seed):
     spec = E.make_spec(PID, PROFILE_C04, RULE_C04)
+    spec = E.with_master_stage(spec, PID, tier, seed)
     core.standard_run(PID, tier, seed, spec)
 
 
